@@ -970,6 +970,21 @@ def translate_mt_logic():
     return out + [dd]
 
 
+def translate_reply_data():
+    """The GENERATED extraction of the reply data for each of the six data modes (templates of reply.rs). cw_utils' envelope
+    parsers and cosmwasm_std::from_json are `extern::..` calls the theorems quantify over."""
+    from . import tmpl_translate, translate
+    _, templates, _ = translate.fetch_tables()
+    path = tmpl_translate.reply_data_source(templates)
+    kv = fetch_ast(path)
+
+    def setup(t):
+        t.interior = True
+    FOREIGN.update({"parse_execute_response_data": "call:extern::parse_execute_response_data", "from_json": "call:extern::from_json"})
+    return translate_methods(path, {"DataT": [m for m, _ in tmpl_translate.DATA_MODES]}, setup=setup, kv=kv,
+                             extra_known={"extern::parse_execute_response_data", "extern::parse_instantiate_response_data", "extern::from_json"})
+
+
 def translate_reply_builders():
     """The GENERATED sub-message builders of reply handlers (templates of contract/communication/reply.rs), for every contract,
     handler, trigger and id."""
@@ -1057,6 +1072,12 @@ def generate():
             raise
         rbuild, _ = [], errors.append("generated reply builders (contract/communication/reply.rs templates): %s" % e)
     try:
+        rdata = translate_reply_data()
+    except Exception as e:
+        if type(e).__name__ != "TranslateError":
+            raise
+        rdata, _ = [], errors.append("generated reply data extraction (contract/communication/reply.rs templates): %s" % e)
+    try:
         mtmeth_i = translate_mtmethods("interface")
     except Exception as e:
         if type(e).__name__ != "TranslateError":
@@ -1109,6 +1130,8 @@ def generate():
 
         "(* GENERATED code, for every contract / handler / trigger / id: the sub-message builders of reply handlers *)",
         "Definition reply_builder_fns : program :=", prog(rbuild), "",
+        "(* GENERATED code: the extraction of the reply data, one function per declared data mode *)",
+        "Definition reply_data_fns : program :=", prog(rdata), "",
         "(* sylvia/src/into_response.rs: IntoMsg / IntoResponse; `enabled_features` = the cargo features switched on *)",
         "Definition resp_program (enabled_features : list string) : program :=", prog(resp), ""])
     global LAST_MACRO_TEXT, LAST_EXTRA_TEXTS
